@@ -276,7 +276,7 @@ Fixpoint norm (x : bool) (p : prog ares) : prog ares :=
   match p with Chk k => if x then Ret ACancelled else norm x k | _ => p end.
 Definition nxt (a : api) (p : prog ares) : prog ares := norm (expired a) p.
 
-Definition fuel0 := 50.
+Definition fuel0 := 120.
 Definition prog_of (a : api) (ovr : bool) : prog ares :=
   match a with
   | TryLock | Lock => try_lock fuel0 ovr false
